@@ -248,6 +248,85 @@ var c26Families = []c26Family{
 			return changed
 		},
 	},
+	{
+		// "${!a[@]}" / "${!a[*]}" of an unset variable is a fatal "invalid
+		// indirect expansion" (bash: expands to nothing); C33 and C21 record it
+		// (keys-of-valueless-var-is-fatal, keys-of-scalar). Repair: list the
+		// keys only when the variable has a value.
+		name: "keys-of-unset-variable-is-fatal-see-C33",
+		repair: func(f *syntax.File) bool {
+			type slot struct {
+				parts []syntax.WordPart
+				i     int
+			}
+			var slots []slot
+			visit := func(parts []syntax.WordPart) {
+				for i, p := range parts {
+					pe, ok := p.(*syntax.ParamExp)
+					if !ok || !pe.Excl || pe.Index == nil || pe.Param == nil || pe.Exp != nil || pe.Repl != nil || pe.Slice != nil {
+						continue
+					}
+					if ix, ok := pe.Index.(*syntax.Word); !ok || (ix.Lit() != "@" && ix.Lit() != "*") {
+						continue
+					}
+					slots = append(slots, slot{parts, i})
+				}
+			}
+			syntax.Walk(f, func(n syntax.Node) bool {
+				switch n := n.(type) {
+				case *syntax.Word:
+					visit(n.Parts)
+				case *syntax.DblQuoted:
+					visit(n.Parts)
+				}
+				return true
+			})
+			for _, s := range slots {
+				pe := s.parts[s.i].(*syntax.ParamExp)
+				nm, ix := pe.Param.Value, pe.Index.(*syntax.Word).Lit()
+				ce := c26ParseCmd("echo $(if [ -n \"${" + nm + "[*]+s}\" ]; then echo \"${!" + nm + "[" + ix + "]}\"; fi)").(*syntax.CallExpr)
+				s.parts[s.i] = ce.Args[1].Parts[0]
+			}
+			return len(slots) > 0
+		},
+	},
+	{
+		// name+=([k]=v ...) on an associative array is ignored (a TODO in
+		// Runner.assignVal). Repair: one element assignment per pair, which
+		// means the same in bash for indexed and associative arrays alike.
+		name: "assoc-array-compound-append-ignored",
+		repair: func(f *syntax.File) bool {
+			changed := false
+			syntax.Walk(f, func(n syntax.Node) bool {
+				ce, ok := n.(*syntax.CallExpr)
+				if !ok || len(ce.Args) > 0 {
+					return true
+				}
+				var out []*syntax.Assign
+				for _, as := range ce.Assigns {
+					split := as.Append && as.Array != nil && as.Index == nil && len(as.Array.Elems) > 0
+					if split {
+						for _, el := range as.Array.Elems {
+							if el.Index == nil || el.Value == nil {
+								split = false
+							}
+						}
+					}
+					if !split {
+						out = append(out, as)
+						continue
+					}
+					for _, el := range as.Array.Elems {
+						out = append(out, &syntax.Assign{Name: as.Name, Index: el.Index, Value: el.Value})
+					}
+					changed = true
+				}
+				ce.Assigns = out
+				return true
+			})
+			return changed
+		},
+	},
 }
 
 func c26ReplaceTests(f *syntax.File, set map[string]bool) bool {
